@@ -45,7 +45,10 @@ CHECKS = {
         text="Theorems (all schemas, types, variable maps): variables are substituted as-is at every position "
              "of every type (value, or invalid when missing/null at non-null); a variable passed directly "
              "delivers its coerced value; omitted vs explicit null vs unprovided variable; schema default = "
-             "same literal written explicitly; errors are local to the argument. Leaf literal=variable laws "
+             "same literal written explicitly; errors are local to the argument; REFINEMENT: for every argument "
+             "definition, node, variable map and fuel the implementation model's argument_coercer (and the "
+             "whole argument map) gives the outcome of the specification's CoerceArgumentValues written "
+             "independently in Model/SpecArgs.v (no entry / this value / field error). Leaf literal=variable laws "
              "are the C10 theorems. The impl model is tied to /repo by generated requests that spell one value "
              "as literal / variable / nested variable / variable default / schema default / null / omitted; "
              "the dictionaries the real resolvers receive are compared with the model inside Coq and with "
